@@ -1085,7 +1085,11 @@ helperHandleRead(const Comm::ConnectionPointer &conn, char *, size_t len, Comm::
                         ++msg;
                 } // else not enough data to compute request number
             }
-            if (!(srv->replyXaction = srv->popRequest(i))) {
+            // Do not look up a request by a channel-ID whose digits may still
+            // be arriving; the buffered bytes are re-parsed after the next read.
+            if (needsMore) {
+                // nothing to do until then
+            } else if (!(srv->replyXaction = srv->popRequest(i))) {
                 if (srv->stats.timedout) {
                     debugs(84, 3, "Timedout reply received for request-ID: " << i << " , ignore");
                 } else {
